@@ -39,6 +39,10 @@ def _points(ctx, cfg):
     e = ctx.reals("e", sh)
     n = ctx.reals("n", sh)
     x = ctx.reals("x", sh)
+    if cfg.get("mem"):
+        from symx.harness import relayout
+
+        e, n = relayout(e, cfg["mem"]), relayout(n, cfg["mem"])
     return e, n, x
 
 
@@ -178,7 +182,7 @@ def _cfg_rolling(tier, seed):
         {"pshape": (2,), "region": "inferred", "shape": (1, 2)},
         {"pshape": (1,), "region": "given", "maxq": "1", "adjust": "region"},
         {"pshape": (1,), "region": "given", "shape": (1, 2)},
-        {"pshape": (2, 2), "region": "given", "shape": (1, 1)},
+        {"pshape": (2, 2), "region": "given", "shape": (1, 1), "mem": "F"},
         {"pshape": (1,), "region": "given", "shape": (1, 2), "int_coords": True},
     ]
     if tier == "quick":
@@ -210,7 +214,7 @@ HARNESSES = [
     Harness(
         "expanding_window",
         h_expanding,
-        lambda tier, seed: [{"pshape": (2,), "nsizes": 2}, {"pshape": (1, 2), "nsizes": 1}, {"pshape": (2,), "nsizes": 1, "int_coords": True}] + ([{"pshape": (2, 2), "nsizes": 2}, {"pshape": (2,), "nsizes": 3}] if tier == "thorough" else []),
+        lambda tier, seed: [{"pshape": (2,), "nsizes": 2}, {"pshape": (1, 2), "nsizes": 1}, {"pshape": (2, 2), "nsizes": 1, "mem": "T"}, {"pshape": (2,), "nsizes": 1, "int_coords": True}] + ([{"pshape": (2, 2), "nsizes": 2}, {"pshape": (2,), "nsizes": 3}] if tier == "thorough" else []),
         bounds="2-4 symbolic points (1-D and 2-D arrays, extra coordinate), symbolic centre, 1-3 symbolic sizes in any order",
         stubs=["scipy.spatial.cKDTree -> StubKDTree (ball-query contract)"],
         extra_globals=_globals,
